@@ -1,0 +1,178 @@
+//go:build verif
+
+package stackage
+
+// Verification hooks (build tag `verif`). Nothing in this file is compiled
+// into a normal build; see verif_off.go for the no-op counterpart.
+
+import (
+	"reflect"
+	"unsafe"
+)
+
+// VerifState is a flat, comparable snapshot of everything a Stack or a
+// Condition holds besides its elements.
+type VerifState struct {
+	Init     bool
+	IsCond   bool
+	Kind     uint8
+	Cap      int
+	Opt      uint16
+	Fifo     bool
+	Sym      string
+	Ljc      string
+	Enc      [][]string
+	ID       string
+	Cat      string
+	HasErr   bool
+	Err      string
+	AuxNil   bool
+	AuxPtr   uintptr
+	AuxLen   int
+	Mtx      bool
+	Locked   bool
+	Ppf      uintptr
+	Vpf      uintptr
+	Rpf      uintptr
+	Eqf      uintptr
+	Lss      uintptr
+	Umf      uintptr
+	Maf      uintptr
+	Evl      uintptr
+	Logger   uintptr
+	Lvl      uint16
+	RawLen   int
+	CfgPtr   uintptr
+	SelfPtr  uintptr
+	Kw       string
+	OpNil    bool
+	OpStr    string
+	OpCtx    string
+	ExNil    bool
+	Elems    []any
+}
+
+func verifFn(f any) uintptr {
+	v := reflect.ValueOf(f)
+	if !v.IsValid() || v.IsNil() {
+		return 0
+	}
+	return v.Pointer()
+}
+
+func verifCfg(sc *nodeConfig, st *VerifState) {
+	if sc == nil {
+		return
+	}
+	st.CfgPtr = uintptr(unsafe.Pointer(sc))
+	st.Kind = uint8(sc.typ)
+	st.Cap = sc.cap
+	st.Opt = uint16(sc.opt)
+	st.Fifo = sc.ord
+	st.Sym = sc.sym
+	st.Ljc = sc.ljc
+	for _, e := range sc.enc {
+		st.Enc = append(st.Enc, append([]string{}, e...))
+	}
+	st.ID = sc.id
+	st.Cat = sc.cat
+	if sc.err != nil {
+		st.HasErr = true
+		st.Err = sc.err.Error()
+	}
+	st.AuxNil = sc.aux == nil
+	if sc.aux != nil {
+		st.AuxPtr = reflect.ValueOf(sc.aux).Pointer()
+		st.AuxLen = len(sc.aux)
+	}
+	st.Mtx = sc.mtx != nil
+	st.Locked = sc.ldr != nil
+	st.Ppf = verifFn(sc.ppf)
+	st.Vpf = verifFn(sc.vpf)
+	st.Rpf = verifFn(sc.rpf)
+	st.Eqf = verifFn(sc.eqf)
+	st.Lss = verifFn(sc.lss)
+	st.Umf = verifFn(sc.umf)
+	st.Maf = verifFn(sc.maf)
+	st.Evl = verifFn(sc.evl)
+	if sc.log != nil {
+		st.Logger = uintptr(unsafe.Pointer(sc.log.log))
+		st.Lvl = uint16(sc.log.lvl)
+	}
+}
+
+// VerifDump snapshots a Stack or Condition (native values only).
+func VerifDump(x any) (st VerifState) {
+	switch tv := x.(type) {
+	case Stack:
+		if tv.stack == nil {
+			return
+		}
+		st.SelfPtr = uintptr(unsafe.Pointer(tv.stack))
+		st.RawLen = len(*tv.stack)
+		if st.RawLen == 0 {
+			return
+		}
+		sc, ok := (*tv.stack)[0].(*nodeConfig)
+		if !ok {
+			return
+		}
+		st.Init = true
+		verifCfg(sc, &st)
+		st.Elems = append([]any{}, (*tv.stack)[1:]...)
+	case Condition:
+		if tv.condition == nil {
+			return
+		}
+		st.IsCond = true
+		st.SelfPtr = uintptr(unsafe.Pointer(tv.condition))
+		if tv.condition.cfg == nil {
+			return
+		}
+		st.Init = tv.condition.cfg.typ == cond
+		verifCfg(tv.condition.cfg, &st)
+		st.Kw = tv.condition.kw
+		st.OpNil = tv.condition.op == nil
+		if tv.condition.op != nil {
+			st.OpStr = tv.condition.op.String()
+			st.OpCtx = tv.condition.op.Context()
+		}
+		st.ExNil = tv.condition.ex == nil
+		st.Elems = []any{tv.condition.ex}
+	}
+	return
+}
+
+// VerifHook, when set, is called at the lock placement points.
+var VerifHook func(point string, id uintptr)
+
+func verifPoint(point string, r *stack) {
+	if h := VerifHook; h != nil {
+		h(point, uintptr(unsafe.Pointer(r)))
+	}
+}
+
+// VerifCall exposes a few private pure helpers by name.
+func VerifCall(name string, args ...any) []any {
+	switch name {
+	case "condenseWHSP":
+		return []any{condenseWHSP(args[0].(string))}
+	case "encapValue":
+		return []any{encapValue(args[0].([][]string), args[1].(string))}
+	case "padValue":
+		return []any{padValue(args[0].(bool), args[1].(string))}
+	case "foldValue":
+		return []any{foldValue(args[0].(bool), args[1].(string))}
+	case "factorNegIndex":
+		return []any{factorNegIndex(args[0].(int), args[1].(int))}
+	case "capLenEqual":
+		return []any{capLenEqual(args[0].(int), args[1].(int), args[2].(int), args[3].(int))}
+	case "valuesEqual":
+		return []any{valuesEqual(args[0], args[1])}
+	case "deenvelopeSingleStack":
+		return []any{deenvelopeSingleStack(args[0].([]any))}
+	case "calculateDefragMax":
+		return []any{calculateDefragMax(args[0].([]int)...)}
+	}
+	panic("VerifCall: unknown helper " + name)
+}
